@@ -28,6 +28,7 @@ split over two IntegralData with the same key.
 import copy
 import hashlib
 import importlib
+import os
 import warnings
 
 import numpy as np
@@ -977,6 +978,18 @@ def case(ctx, i, rng):
                 ctx.count("rejected")
                 ctx.count("rejected_grouping_raised_" + type(ex).__name__)
                 ctx.covered("rejected_with", type(ex).__name__ + ": " + str(ex)[:70])
+                if isinstance(ex, TypeError | IndexError | KeyError | AttributeError | UnboundLocalError | NameError | AssertionError):
+                    # a well-formed form of the public language (every integral was built by a Measure call) that the
+                    # grouping cannot process at all: nothing "is integrated on each subdomain" afterwards.  A
+                    # ValueError is taken as a deliberate refusal, a failed comparison / lookup inside the grouping is not
+                    import traceback
+
+                    tb = traceback.extract_tb(ex.__traceback__)
+                    site = next((f"{os.path.basename(fr.filename)}:{fr.name}" for fr in reversed(tb) if "/ufl/" in fr.filename), "?")
+                    ctx.violation(f"C15/group_form_integrals/raises/{type(ex).__name__}/{site}",
+                                  f"group_form_integrals raises {type(ex).__name__}: {str(ex)[:120]} (in {site}) on a well-formed form",
+                                  {"form": str(F)[:1500], "metadata": [repr(itg.metadata())[:200] for itg in F.integrals()][:8],
+                                   "subdomains": [repr(itg.subdomain_id()) for itg in F.integrals()][:8]})
                 return
             events.append(("group_form_integrals", (F, domains), {"do_append_everywhere_integrals": append}, G))
             G2 = G
